@@ -262,4 +262,7 @@ Proof.
     apply compare_eq_finite in Rb. unfold float_of_decimal in *. destruct (magnitude c t) as [s0|s0| |s0 m0 e0]; cbn [set_sign] in Rb; try discriminate.
     inversion Rb; subst. reflexivity.
 Qed.
-Print Assumptions repr_reads_back.
+(* ... hence two different reals never print alike (zeros of different sign included): the printed form determines the real *)
+Corollary repr_injective f g txt : repr_float f = Some txt -> repr_float g = Some txt -> f = g.
+Proof. intros F G. apply repr_reads_back in F. apply repr_reads_back in G. rewrite F in G. inversion G. reflexivity. Qed.
+Print Assumptions repr_reads_back. Print Assumptions repr_injective.
